@@ -273,21 +273,22 @@ AddInstrumentAny == \E d \in Universe : AddInstrument(d)
 
 NextBuild == AddInstrumentAny \/ Build
 
-\* one named action per entry point (the quantifiers are the environment's free choices)
+\* one named action per entry point (the quantifiers are the environment's free choices; an
+\* event may claim to come from any exchange, also one that is not part of the collection)
 OrderRequestAny ==
     \E e \in ExchangesOf(tables), x \in 1..(Len(tables.ex) + 1), i \in 1..(Len(tables.ins) + 1) :
         OrderRequest(e, x, i)
 IndexBalanceAny ==
-    \E e \in ExchangesOf(tables), from \in ExchangesOf(tables), n \in AssetNames :
+    \E e \in ExchangesOf(tables), from \in AllExchanges, n \in AssetNames :
         IndexEvent(e, "balance", from, n)
 IndexOrderAny ==
-    \E e \in ExchangesOf(tables), from \in ExchangesOf(tables), n \in InsNames : IndexEvent(e, "order", from, n)
+    \E e \in ExchangesOf(tables), from \in AllExchanges, n \in InsNames : IndexEvent(e, "order", from, n)
 IndexTradeAny ==
-    \E e \in ExchangesOf(tables), from \in ExchangesOf(tables), n \in InsNames : IndexEvent(e, "trade", from, n)
+    \E e \in ExchangesOf(tables), from \in AllExchanges, n \in InsNames : IndexEvent(e, "trade", from, n)
 IndexCancelAny ==
-    \E e \in ExchangesOf(tables), from \in ExchangesOf(tables), n \in InsNames : IndexEvent(e, "cancel", from, n)
+    \E e \in ExchangesOf(tables), from \in AllExchanges, n \in InsNames : IndexEvent(e, "cancel", from, n)
 IndexSnapshotAny ==
-    \E e \in ExchangesOf(tables), from \in ExchangesOf(tables) :
+    \E e \in ExchangesOf(tables), from \in AllExchanges :
         \/ \E xa \in AssetNames \cup {None} : IndexSnapshot(e, from, xa, None)
         \/ \E xi \in InsNames : IndexSnapshot(e, from, None, xi)
 
